@@ -2,7 +2,9 @@
 C11 — Merkle proof checks are complete and sound.
 
 Model: Model/Proof.lean (`checkProof`, `checkBlockHeaderProof(State)`, `checkAccountProof`, `checkShardProof`
-over constructed cell objects `PCell`).  Pruning: Proofs/Prune.lean (`PruneRel`).  Helper lemmas: Proofs/Merkle.lean.
+over constructed cell objects `PCell`) and Model/Locate.lean (`locateAccount`: the TL-B walk of `check_account_proof` to the
+account cell, concrete; `lookupShardAccount`: the lookup-only reading of block.tlb / hashmap.tlb used in the statements).
+Pruning: Proofs/Prune.lean (`PruneRel`).  Helper lemmas: Proofs/Merkle.lean, Proofs/Locate.lean, Proofs/LocateBind.lean.
 `H` is SHA-256 as a parameter; completeness needs no property of `H` beyond 32-byte output (so that the hash fits
 the proof cell's 256-bit field); soundness takes a LOCAL no-collision hypothesis on the representations at hand.
 -/
@@ -10,6 +12,8 @@ import TonVerif.Proofs.Merkle
 import TonVerif.Proofs.Binding
 import TonVerif.Proofs.PruneWF
 import TonVerif.Proofs.OrdCell
+import TonVerif.Proofs.Locate
+import TonVerif.Proofs.LocateBind
 import TonVerif.Proofs.SrcArith2
 import TonVerif.Generated.ProofChecks
 
@@ -173,17 +177,26 @@ theorem c11_header_state_sound (root : PCell) (h sh : Bytes) (hacc : checkBlockH
             exact ⟨su, c, rfl, h21, hc.1, hh, hc.2⟩
   · cases hacc
 
-/-! ## account proofs -/
+/-! ## account proofs
 
-/-- SOUNDNESS of the account check (no hash assumption): if `check_account_proof` returns, there were exactly two
-roots, both pass `check_proof` (against the block root hash resp. the state hash `sh` that the header's Merkle
-update commits to), the state proof's child has level-0 hash `sh`, and the REPRESENTATION hash (`Cell.hash`) of the
-supplied account state equals the level-0 hash of the account cell located in the proved state. -/
-theorem c11_account_sound (locate : PCell → Bytes → Option PCell) (roots : List PCell) (blk addr : Bytes) (state : PCell)
-    (hacc : checkAccountProof locate roots blk addr state = true) :
+`check_account_proof(proof, shrd_blk, address, account_state_root)` is `checkAccountProof O roots blk addr state`
+(`roots = Cell.from_boc(proof)`, `blk = shrd_blk.root_hash`, `addr = address.hash_part`).  The TL-B walk
+`ShardStateUnsplit.deserialize(st).accounts[0][addr].cell[0]` is the CONCRETE function `locateAccount`
+(Model/Locate.lean): state header fields, `load_hashmap_aug_e` over the whole `ShardAccounts` dictionary (C10 label
+reader), `DepthBalanceInfo`, `ShardAccount`, the `^[…]` group, `custom`.  `O : Opaque` = the verdicts of the two
+sub-parsers that are not modelled (`Account.deserialize` on an `account$1` cell, `McStateExtra.deserialize` on an
+ordinary cell); every theorem below holds for ALL `O` and says so by quantifying over it. -/
+open TonVerif.Proofs.Locate
+
+/-- SOUNDNESS of the account check, composition (no hash assumption): if `check_account_proof` returns, there were
+exactly two roots, both pass `check_proof` (against the block root hash resp. the state hash `sh` that the header's
+Merkle update commits to), the state proof's child `st` has level-0 hash `sh`, the TL-B walk over `st` returned a cell
+`acc`, and the REPRESENTATION hash (`Cell.hash`) of the supplied account state equals the level-0 hash of `acc`. -/
+theorem c11_account_sound (O : Opaque) (roots : List PCell) (blk addr : Bytes) (state : PCell)
+    (hacc : checkAccountProof O roots blk addr state = true) :
     ∃ p0 p1 hdr st acc sh, roots = [p0, p1] ∧ checkProof p0 blk = true ∧ p0.refs[0]? = some hdr ∧
       checkBlockHeaderProofState hdr blk = some sh ∧ p1.refs[0]? = some st ∧ st.info.getHash 0 = some sh ∧
-      checkProof p1 sh = true ∧ locate st addr = some acc ∧ acc.info.getHash 0 = some state.info.hash := by
+      checkProof p1 sh = true ∧ locateAccount O st addr = some acc ∧ acc.info.getHash 0 = some state.info.hash := by
   unfold checkAccountProof at hacc
   split at hacc
   · rename_i p0 p1
@@ -212,30 +225,74 @@ theorem c11_account_sound (locate : PCell → Bytes → Option PCell) (roots : L
     exact ⟨p0, p1, hdr, st, acc, sh, rfl, by simpa using h0, hhdr, hsh, hst, hs, by simpa using h1, hl, hacc⟩
   · cases hacc
 
+/-- WHAT THE WALK FINDS (the former parameter `locate`, now a theorem).  If
+`ShardStateUnsplit.deserialize(st.begin_parse()).accounts[0][int.from_bytes(addr,'big')].cell[0]` returns `acc` for a
+32-byte address, then `st` is an ordinary cell carrying the `shard_state#9023afe2` tag and ≥ 361 data bits, and `acc` is
+the cell that the lookup-only reading of block.tlb / hashmap.tlb designates (`lookupShardAccount`): `st[1]` is an
+ordinary cell `ahme_root$1 root:^…`, the dictionary walk from `root = st[1][0]` along the 256 bits of `addr` (each
+label a prefix of the remaining key, the next key bit choosing the left or right reference) ends in a leaf, and `acc`
+is the `account:^Account` reference of that leaf's `ShardAccount` (the first reference after the `DepthBalanceInfo`
+extra, 320 value bits present).  So the dictionary of the proved state maps `addr` to a `ShardAccount` whose account
+cell is `acc` — for every behaviour `O` of the unmodelled sub-parsers and whatever is pruned off the path. -/
+theorem c11_locate_sound (O : Opaque) (st : PCell) (addr : Bytes) (acc : PCell) (hl : addr.length = 32) (hw : Bytes.WF addr)
+    (h : locateAccount O st addr = some acc) :
+    st.info.kind = kOrdinary ∧ 361 ≤ st.info.bits.length ∧ st.info.bits.take 32 = shardStateTag ∧
+    lookupShardAccount pcellView st (bytesToBits addr) = some acc := by
+  obtain ⟨hk, hlen, htag, _⟩ := locateAccount_some h
+  exact ⟨hk, hlen, htag, locateAccount_lookup O st addr acc hl hw h⟩
+
+/-- SOUNDNESS of the account check down to the dictionary: acceptance for a 32-byte address implies everything
+`c11_account_sound` lists AND that the `ShardAccounts` dictionary of the proved state cell `st` maps the address to a
+`ShardAccount` whose account reference `acc` has as level-0 hash the representation hash of the supplied state. -/
+theorem c11_account_sound_lookup (O : Opaque) (roots : List PCell) (blk addr : Bytes) (state : PCell)
+    (hl : addr.length = 32) (hw : Bytes.WF addr) (hacc : checkAccountProof O roots blk addr state = true) :
+    ∃ p0 p1 hdr st acc sh, roots = [p0, p1] ∧ checkProof p0 blk = true ∧ p0.refs[0]? = some hdr ∧
+      checkBlockHeaderProofState hdr blk = some sh ∧ p1.refs[0]? = some st ∧ st.info.getHash 0 = some sh ∧
+      checkProof p1 sh = true ∧ lookupShardAccount pcellView st (bytesToBits addr) = some acc ∧
+      acc.info.getHash 0 = some state.info.hash := by
+  obtain ⟨p0, p1, hdr, st, acc, sh, e, h0, hhdr, hsh, hst, hs, h1, hloc, hh⟩ := c11_account_sound O roots blk addr state hacc
+  exact ⟨p0, p1, hdr, st, acc, sh, e, h0, hhdr, hsh, hst, hs, h1, (c11_locate_sound O st addr acc hl hw hloc).2.2.2, hh⟩
+
 /-- A claimed account state whose own hash is not the committed one is rejected. -/
-theorem c11_account_reject (locate : PCell → Bytes → Option PCell) (roots : List PCell) (blk addr : Bytes) (state : PCell)
-    (hne : ∀ st acc, locate st addr = some acc → acc.info.getHash 0 ≠ some state.info.hash) :
-    checkAccountProof locate roots blk addr state = false := by
-  cases hc : checkAccountProof locate roots blk addr state with
+theorem c11_account_reject (O : Opaque) (roots : List PCell) (blk addr : Bytes) (state : PCell)
+    (hne : ∀ st acc, locateAccount O st addr = some acc → acc.info.getHash 0 ≠ some state.info.hash) :
+    checkAccountProof O roots blk addr state = false := by
+  cases hc : checkAccountProof O roots blk addr state with
   | false => rfl
   | true =>
-    obtain ⟨_, _, _, st, acc, _, _, _, _, _, _, _, _, hl, hh⟩ := c11_account_sound locate roots blk addr state hc
+    obtain ⟨_, _, _, st, acc, _, _, _, _, _, _, _, _, hl, hh⟩ := c11_account_sound O roots blk addr state hc
     exact absurd hh (hne st acc hl)
+
+/-- An address the dictionary of the proved state cell does not hold (the lookup-only walk fails: label mismatch,
+pruned or malformed path, no `ShardAccounts` root) is rejected, whatever else the proof contains. -/
+theorem c11_account_reject_absent (O : Opaque) (p0 p1 st : PCell) (blk addr : Bytes) (state : PCell)
+    (hl : addr.length = 32) (hw : Bytes.WF addr) (hst : p1.refs[0]? = some st)
+    (hno : lookupShardAccount pcellView st (bytesToBits addr) = none) :
+    checkAccountProof O [p0, p1] blk addr state = false := by
+  cases hc : checkAccountProof O [p0, p1] blk addr state with
+  | false => rfl
+  | true =>
+    obtain ⟨q0, q1, _, st', acc, _, e, _, _, _, hst', _, _, hlk, _⟩ :=
+      c11_account_sound_lookup O [p0, p1] blk addr state hl hw hc
+    simp only [List.cons.injEq, and_true] at e
+    obtain ⟨rfl, rfl⟩ := e
+    rw [hst] at hst'; cases hst'
+    rw [hlk] at hno; cases hno
 
 /-- The F12 scenario: the supplied "state" is a spec-valid PRUNED-BRANCH cell (whatever hashes it carries, e.g. the
 committed one as its level-0 hash).  Its `Cell.hash` is `H` of its own representation, whose first byte has the
 exotic bit and a non-zero level mask.  If the account cell `acc` found in the proved state has as level-0 hash the
 hash of a representation `d1 :: rest` of a NON-pruned cell (`d1 = r + 8e`, r ≤ 4, level part 0) and `H` does not
 collide on these two representations, the check rejects. -/
-theorem c11_account_reject_pruned (H : Bytes → Bytes) (locate : PCell → Bytes → Option PCell) (roots : List PCell)
+theorem c11_account_reject_pruned (H : Bytes → Bytes) (O : Opaque) (roots : List PCell)
     (blk addr : Bytes) (bits : Bits) (i : CellInfo)
     (wf : NodeWF H .pruned bits []) (hc : construct H 1 bits [] = some i)
     (r : Nat) (e : Bool) (rest : Bytes) (hr : r ≤ 4)
-    (hcommitted : ∀ st acc, locate st addr = some acc → acc.info.getHash 0 = some (H (Spec.d1 r e 0 :: rest)))
+    (hcommitted : ∀ st acc, locateAccount O st addr = some acc → acc.info.getHash 0 = some (H (Spec.d1 r e 0 :: rest)))
     (nocoll : H (Spec.d1 r e 0 :: rest) =
         H ([Spec.d1 0 true (Spec.nodeMask .pruned bits []), Spec.d2 bits.length] ++ Spec.dataBytes bits) →
       Spec.d1 r e 0 :: rest = [Spec.d1 0 true (Spec.nodeMask .pruned bits []), Spec.d2 bits.length] ++ Spec.dataBytes bits) :
-    checkAccountProof locate roots blk addr (.mk i []) = false := by
+    checkAccountProof O roots blk addr (.mk i []) = false := by
   apply c11_account_reject
   intro st acc hl
   rw [hcommitted st acc hl]
@@ -250,17 +307,110 @@ theorem c11_account_reject_pruned (H : Bytes → Bytes) (locate : PCell → Byte
   unfold Spec.d1 at hd
   cases e <;> simp at hd <;> omega
 
-/-- COMPLETENESS of the account check: if both roots pass `check_proof` (c11_complete gives this for every pruning of
-the block header and of the shard state), the header's Merkle update commits to the state hash, and the account
-cell located in the (pruned) state proof has as level-0 hash the representation hash of the supplied state — by
-pruning invariance (c02_prune_invariant) that holds whether the account cell is present in full or pruned — then
-`check_account_proof` returns. -/
-theorem c11_account_complete (locate : PCell → Bytes → Option PCell) (p0 p1 hdr st acc state : PCell) (blk addr sh : Bytes)
+/-- COMPLETENESS of the account check, composition: if both roots pass `check_proof` (c11_complete gives this for every
+pruning of the block header and of the shard state), the header's Merkle update commits to the state hash, the TL-B walk
+over the (pruned) state cell returns `acc` (`c11_locate_complete`), and `acc` has as level-0 hash the representation hash
+of the supplied state — by pruning invariance (c02_prune_invariant) that holds whether the account cell is present in
+full or pruned — then `check_account_proof` returns. -/
+theorem c11_account_complete (O : Opaque) (p0 p1 hdr st acc state : PCell) (blk addr sh : Bytes)
     (h0 : checkProof p0 blk = true) (hhdr : p0.refs[0]? = some hdr) (hsh : checkBlockHeaderProofState hdr blk = some sh)
     (hst : p1.refs[0]? = some st) (hs : st.info.getHash 0 = some sh) (h1 : checkProof p1 sh = true)
-    (hl : locate st addr = some acc) (hh : acc.info.getHash 0 = some state.info.hash) :
-    checkAccountProof locate [p0, p1] blk addr state = true := by
+    (hl : locateAccount O st addr = some acc) (hh : acc.info.getHash 0 = some state.info.hash) :
+    checkAccountProof O [p0, p1] blk addr state = true := by
   simp [checkAccountProof, h0, hhdr, hsh, hst, hs, h1, hl, hh]
+
+/-- THE DICTIONARY PARSER OF THE WALK IS THE C10 PARSER MODEL.  `parseAugP` (Model/Locate.lean: `parse_aug` on constructed
+cells, used by `locateAccount`) succeeds exactly when the C10 model `Hashmap.parseAugEdge` — the function the C10
+correspondence and `c10_parse_any_aug` are about — succeeds on the underlying tree (`PCell.toCell`), and returns the same
+keys in the same order, for any two pairs of extra/value deserialisers that succeed on the same slices and leave the same
+rest (`DecCompat`).  So the only new hand-written parser pieces of the walk are the field readers (`readDepthBalance`,
+`readShardAccount`, `stateRefGroup`, the state header). -/
+theorem c11_parse_aug_is_c10 {X X' Y' : Type} (decY : PSlice → Option PSlice) (decX : PSlice → Option X)
+    (D : Spec.Hashmap.AugDec X' Y') (hc : DecCompat decY decX D) (c : PCell) (keyLen : Int) (pfx : Bits) :
+    (parseAugP decY decX c keyLen pfx).map (·.map Prod.fst) =
+      (Hashmap.parseAugEdge D c.toCell keyLen pfx).map (·.1.map Prod.fst) :=
+  parseAugP_c10 decY decX D hc c keyLen pfx
+
+/-- non-vacuity of `DecCompat`: readers that only look at the bits (here: skip 2 extra bits, then require 3 value bits) -/
+example : DecCompat (X := Unit) (X' := Unit) (Y' := Unit)
+    (fun s => if s.1.length < 2 then none else some (s.1.drop 2, s.2))
+    (fun s => if s.1.length < 3 then none else some ())
+    ⟨fun s => if s.1.length < 2 then none else some ((), (s.1.drop 2, s.2)),
+     fun s => if s.1.length < 3 then none else some ()⟩ := by
+  constructor
+  · intro rest refs
+    by_cases h : rest.length < 2 <;> simp [h]
+  · intro sl
+    by_cases h : sl.1.length < 3 <;> simp [h]
+
+/-- COMPLETENESS of the walk on HONEST state proofs (any pruning off the path).  Let the state cell `st` be an ordinary
+cell with the `shard_state` tag, the `ShardIdent` tag `00` and ≥ 362 bits, references `omq :: accs :: grp :: …` (`omq` is
+never parsed — any cell, e.g. a pruned branch); `accs` an ordinary cell `1 ++ extra` with references `root :: …` whose
+top-level `extra:DepthBalanceInfo` is readable; `root` an ordinary cell that is a spec-valid `HashmapAug 256 ShardAccount
+DepthBalanceInfo` — EVERY label in any of the constructors short/long/same that can express it, ANY edge replaced by a
+non-ordinary cell (pruned branch), extras and leaves of the unpruned part readable (`ValidAugP`; for a leaf that
+includes: its account cell is non-empty and, if it starts with bit 1, `Account.deserialize` accepts it) — whose unpruned
+leaves `kv` still hold the address with account reference `acc`; the `^[…]` group `grp` pruned or readable
+(`stateRefGroup`); `custom` absent (bit 361 = 0), or its cell pruned, or accepted by `McStateExtra.deserialize`.  Then
+`ShardStateUnsplit.deserialize(st).accounts[0][addr].cell[0]` returns `acc`. -/
+theorem c11_locate_complete (O : Opaque) (st omq accs grp root : PCell) (rest2 emore : List PCell) (erest : Bits)
+    (kv : List (Bits × PCell)) (addr : Bytes) (acc : PCell)
+    (hk : st.info.kind = -1) (hlen : 361 < st.info.bits.length) (htag : st.info.bits.take 32 = shardStateTag)
+    (hsi : (st.info.bits.drop 64).take 2 = [false, false]) (hrefs : st.refs = omq :: accs :: grp :: rest2)
+    (hak : accs.info.kind = -1) (hab : accs.info.bits = true :: erest) (har : accs.refs = root :: emore)
+    (hext : ∃ sl, readDepthBalance (erest, emore) = some sl) (hrk : root.info.kind = -1)
+    (hv : ValidAugP readDepthBalance (readShardAccount O) 256 root kv) (hmem : (bytesToBits addr, acc) ∈ kv)
+    (hw : Bytes.WF addr) (hgrp : stateRefGroup grp = true)
+    (hcu : st.info.bits[361]? = some false ∨
+      ∃ cu more, rest2 = cu :: more ∧ (cu.info.kind ≠ -1 ∨ O.mcExtra cu = true)) :
+    locateAccount O st addr = some acc :=
+  locateAccount_complete O st omq accs grp root rest2 emore erest kv addr acc hk hlen htag hsi hrefs hak hab har hext hrk
+    hv hmem hw hgrp hcu
+
+/-! Non-vacuity of `c11_locate_complete` / `c11_locate_sound`: a one-account shard state (address 00…00; the leaf label
+is `hml_same 0 × 256`, 12 bits; extras `split_depth 0, grams 0, no extra currencies`; `account_none`; out-queue and `^[…]`
+group pruned; no `custom`) meets every hypothesis, for every `O`. -/
+def exInfo (kind : Int) (bits : Bits) (n : Nat) : CellInfo := ⟨kind, bits, n, 0, [], []⟩
+def exAcc : PCell := .mk (exInfo (-1) [false] 0) []
+def exExtra : Bits := List.replicate 10 false
+def exLabel : Bits := true :: true :: false :: natToBits 9 256
+def exLeaf : PCell := .mk (exInfo (-1) (exLabel ++ (exExtra ++ List.replicate 320 false)) 1) [exAcc]
+def exAccs : PCell := .mk (exInfo (-1) (true :: exExtra) 1) [exLeaf]
+def exPruned : PCell := .mk (exInfo 1 [] 0) []
+def exState : PCell := .mk (exInfo (-1) (shardStateTag ++ List.replicate 330 false) 3) [exPruned, exAccs, exPruned]
+def exAddr : Bytes := List.replicate 32 0
+
+theorem exExtra_reads (r : Bits) (refs : List PCell) : readDepthBalance (exExtra ++ r, refs) = some (r, refs) := by
+  have h4 : ∀ n : Nat, ¬ (n + 1 + 1 + 1 + 1 + 1 < 4) := by intro n; omega
+  simp [readDepthBalance, readCurrencyCollection, loadCoinsRest, readExtraCurrencies, exExtra, List.replicate, natOfBits, h4]
+
+theorem exLeaf_valid (O : Opaque) :
+    ValidAugP readDepthBalance (readShardAccount O) 256 exLeaf [(List.replicate 256 false, exAcc)] := by
+  have hl : Spec.Hashmap.LabelEnc 256 (List.replicate 256 false) .same exLabel := by
+    have := Spec.Hashmap.LabelEnc.same (m := 256) (s := List.replicate 256 false) false
+      (by rw [List.length_replicate]) (by rw [List.length_replicate])
+    have e : Spec.Hashmap.lenBits 256 = 9 := by decide +kernel
+    rw [List.length_replicate, e] at this
+    exact this
+  refine ValidAugP.leaf hl (List.length_replicate ..) rfl rfl (exExtra_reads _ _) ?_
+  unfold readShardAccount
+  simp only [exAcc, exInfo, PCell.info, List.length_replicate]
+  simp
+
+example (O : Opaque) : locateAccount O exState exAddr = some exAcc ∧ exAddr.length = 32 ∧ Bytes.WF exAddr ∧
+    lookupShardAccount pcellView exState (bytesToBits exAddr) = some exAcc := by
+  have hbits : bytesToBits exAddr = List.replicate 256 false := by decide +kernel
+  have hw : Bytes.WF exAddr := by intro b hb; simp [exAddr] at hb; omega
+  have htl : shardStateTag.length = 32 := by decide +kernel
+  have h : locateAccount O exState exAddr = some exAcc := by
+    refine c11_locate_complete O exState exPruned exAccs exPruned exLeaf [] [] exExtra _ exAddr exAcc rfl
+      ?_ ?_ (by decide +kernel) rfl rfl rfl rfl ⟨_, by simpa using exExtra_reads [] []⟩ rfl (exLeaf_valid O)
+      (by rw [hbits]; exact List.mem_singleton.2 rfl) hw rfl (Or.inl (by decide +kernel))
+    · show 361 < (shardStateTag ++ List.replicate 330 false).length
+      rw [List.length_append, List.length_replicate, htl]; omega
+    · show (shardStateTag ++ List.replicate 330 false).take 32 = shardStateTag
+      exact List.take_left' htl
+  exact ⟨h, rfl, hw, (c11_locate_sound O exState exAddr exAcc rfl hw h).2.2.2⟩
 
 /-! ## binding: what an accepted hash pins down -/
 open TonVerif.Proofs.Binding
@@ -448,6 +598,201 @@ example : TreeWF toyH leafA ∧ specInfo toyH leafA = some sLeafA ∧ sLeafA.mas
     rw [PruneRel]
     exact Or.inr ⟨.ordinary, [], by decide, rfl, by rw [PruneRels]⟩
 
+/-! ## account proofs, end to end: what acceptance says about the TRUE shard state -/
+
+/-- SOUNDNESS OF `check_account_proof`, END TO END.  Let the second root of the bag be the object of a spec-valid tree
+`.mk kind bits [p]` (`p` = the body of the state proof), the address 32 bytes, and `check_account_proof` return.  Then
+the header proof passes `check_proof` against the block root hash, its block header commits (in the Merkle update
+`root[2]`, `c11_header_state_sound`) to a state hash `sh`, and for EVERY tree `T` (any cell types; `Shape`) whose
+level-0 hash is `sh` and in which pruned branches occur only below Merkle cells (`OrdUnpruned` — a genuine shard state),
+under the LOCAL no-collision hypothesis between the representations of `p` and of `T` (as in `c11_sound`):
+the lookup-only reading of block.tlb finds in `T` itself — `T[1]` an `ahme_root`, the dictionary walk from `T[1][0]`
+along the 256 address bits, the leaf's `DepthBalanceInfo` skipped — a `ShardAccount` whose `account:^Account` cell
+`aT` has level-0 hash equal to the REPRESENTATION hash of the supplied account state.  I.e. the block id binds the state
+hash, the state hash binds the `ShardAccounts` dictionary path, and the dictionary of the true state maps the address
+to the supplied state (up to `H`-collisions among the cells at hand).  Holds for every behaviour `O` of the two
+unmodelled sub-parsers and whatever is pruned in the proof. -/
+theorem c11_account_sound_state (H : Bytes → Bytes) (h32 : ∀ x, (H x).length = 32) (O : Opaque)
+    (kind : Int) (bits : Bits) (p T : Cell) (c0 c1 : PCell) (blk addr : Bytes) (state : PCell) (sp sT : Spec.SInfo)
+    (wf : TreeWF H (.mk kind bits [p])) (hc1 : PCell.ofCell H (.mk kind bits [p]) = some c1)
+    (hl : addr.length = 32) (hw : Bytes.WF addr)
+    (hacc : checkAccountProof O [c0, c1] blk addr state = true)
+    (shp : Shape p) (shT : Shape T) (hsp : specInfo H p = some sp) (hsT : specInfo H T = some sT)
+    (hu : OrdUnpruned T)
+    (nocoll : ∀ x y, x ∈ reprs H p → y ∈ reprs H T → H x = H y → x = y) :
+    ∃ hdr sh, checkProof c0 blk = true ∧ c0.refs[0]? = some hdr ∧ checkBlockHeaderProofState hdr blk = some sh ∧
+      (sT.hashAt 0 = sh → ∃ aT sa, lookupShardAccount cellView T (bytesToBits addr) = some aT ∧
+        specInfo H aT = some sa ∧ sa.hashAt 0 = state.info.hash) := by
+  obtain ⟨p0, p1, hdr, st, acc, sh, e, h0, hhdr, hsh, hst, _, h1, hloc, hh⟩ := c11_account_sound O [c0, c1] blk addr state hacc
+  simp only [List.cons.injEq, and_true] at e
+  obtain ⟨rfl, rfl⟩ := e
+  refine ⟨hdr, sh, h0, hhdr, hsh, ?_⟩
+  intro hT
+  obtain ⟨_, _, hag⟩ := c11_sound H h32 kind bits p T c1 sh sp sT wf hc1 h1 shp shT hsp hsT hT nocoll
+  obtain ⟨r, hr, hrp⟩ := ofCell_single H kind bits p _ hc1
+  rw [hr] at hst
+  simp only [List.getElem?_cons_zero, Option.some.injEq] at hst
+  subst hst
+  have wfp : TreeWF H p := by rw [TreeWF] at wf; exact wf.1.1
+  have hlk := locateAccount_lookup O r addr acc hl hw hloc
+  obtain ⟨aT, sa, hlT, hsa, hha⟩ := lookup_transfer H p T r acc _ hrp wfp hag hu hlk
+  rw [hh] at hha
+  exact ⟨aT, sa, hlT, hsa, (Option.some.inj hha).symm⟩
+
+/-- THE BLOCK ID BINDS THE STATE HASH.  Let the first root of the bag be the object of a spec-valid tree
+`.mk kind bits [pb]` (`pb` = the body of the header proof) that passes `check_proof` against the block root hash `blk`,
+and let `check_block_header_proof(pb, blk, True)` return `sh` (as `c11_account_sound_state` reports for an accepted account
+proof).  Then for EVERY tree `TB` (`Shape`) whose level-0 hash is `blk` and in which pruned branches occur only below
+Merkle cells (a genuine block), under the local no-collision hypothesis between the representations of `pb` and `TB`:
+`TB`'s own third reference is a Merkle update cell whose data bytes 33..64 — the new-state hash of the `state_update` —
+are `sh`.  So the state hash the account check goes on with is the one the true block with that id commits to. -/
+theorem c11_header_binds_state (H : Bytes → Bytes) (h32 : ∀ x, (H x).length = 32) (kind : Int) (bits : Bits)
+    (pb TB : Cell) (c0 hdr : PCell) (blk sh : Bytes) (sp sT : Spec.SInfo)
+    (wf : TreeWF H (.mk kind bits [pb])) (hc0 : PCell.ofCell H (.mk kind bits [pb]) = some c0)
+    (h0 : checkProof c0 blk = true) (hhdr : c0.refs[0]? = some hdr)
+    (hsh : checkBlockHeaderProofState hdr blk = some sh)
+    (shp : Shape pb) (shT : Shape TB) (hsp : specInfo H pb = some sp) (hsT : specInfo H TB = some sT)
+    (hT : sT.hashAt 0 = blk) (hu : OrdUnpruned TB)
+    (nocoll : ∀ x y, x ∈ reprs H pb → y ∈ reprs H TB → H x = H y → x = y) :
+    ∃ suT, (cellView.refs TB)[2]? = some suT ∧ cellView.kind suT = kMerkleUpdate ∧
+      pySlice (dataBytes (cellView.bits suT)) 33 65 = sh := by
+  obtain ⟨_, _, hag⟩ := c11_sound H h32 kind bits pb TB c0 blk sp sT wf hc0 h0 shp shT hsp hsT hT nocoll
+  obtain ⟨r, hr, hrp⟩ := ofCell_single H kind bits pb _ hc0
+  rw [hr] at hhdr
+  simp only [List.getElem?_cons_zero, Option.some.injEq] at hhdr
+  subst hhdr
+  obtain ⟨_, su, c, h2, _, hk, _, hdata⟩ := c11_header_state_sound r blk sh hsh
+  obtain ⟨suT, hsuT, hkT, hbT⟩ := header_transfer H pb TB r su hrp hag hu shp h2 hk
+  exact ⟨suT, hsuT, hkT, by rw [hbT]; exact hdata⟩
+
+/-- COMPLETENESS of the state-hash read-out.  Let a spec-valid tree (a block header, pruned or not) have as third
+reference a Merkle update cell `.mk 4 ub [o, n]` whose data bytes 33..64 are the level-0 hash of its second child `n` (what
+block.tlb's `state_update:^(MERKLE_UPDATE ShardState)` is; `n` is normally the pruned branch of the new state, whose
+level-0 hash is the state's), and let its object pass `check_block_header_proof(·, blk)`.  Then
+`check_block_header_proof(·, blk, True)` returns that hash — the hypothesis `hhdr` of `c11_account_complete_honest`. -/
+theorem c11_header_complete (H : Bytes → Bytes) (k : Int) (b ub : Bits) (x0 x1 o n : Cell) (rest : List Cell) (r0 : PCell)
+    (blk : Bytes) (sn : Spec.SInfo)
+    (wf : TreeWF H (.mk k b (x0 :: x1 :: .mk 4 ub [o, n] :: rest)))
+    (hobj : PCell.ofCell H (.mk k b (x0 :: x1 :: .mk 4 ub [o, n] :: rest)) = some r0)
+    (hblk : checkBlockHeaderProof r0 blk = true) (hsn : specInfo H n = some sn)
+    (hdata : pySlice (dataBytes ub) 33 65 = sn.hashAt 0) :
+    checkBlockHeaderProofState r0 blk = some (sn.hashAt 0) :=
+  header_complete H k b ub x0 x1 o n rest r0 blk sn wf hobj (by simpa [checkBlockHeaderProof] using hblk) hsn hdata
+
+/-- COMPLETENESS OF `check_account_proof`, END TO END, for honest proofs.  `tb` = the block (spec-valid, level 0), `ts` =
+the shard state (spec-valid, level 0); `pb`, `ps` ANY prunings of them (`PruneRel … 1`: any set of subtrees replaced by
+pruned branches, deeper levels below inner Merkle cells), each wrapped in the Merkle proof cell naming the level-0 hash
+and depth of the original.  Provided
+* the pruned header still shows the state commitment: `check_block_header_proof(pb, hash tb, True)` returns `hash ts`
+  (`c11_header_complete`: `root[2]` is there as a Merkle update cell storing the level-0 hash of its second child),
+* the pruned state still passes the TL-B walk for the address (`c11_locate_complete`: path to the account unpruned,
+  everything off the path pruned or readable),
+* the supplied account state has as representation hash the level-0 hash of the account cell `aT` that the FULL state's
+  dictionary holds under the address,
+both proof cells can be constructed and `check_account_proof` returns — whether the account cell is present in the state
+proof in full or as a pruned branch (pruning invariance of the level-0 hash along the walk, `lookup_pruned`).  Side
+conditions as in `c11_complete`: root hashes are 32 valid bytes, depths ≤ 1022.  No collision hypothesis. -/
+theorem c11_account_complete_honest (H : Bytes → Bytes) (O : Opaque) (tb pb ts ps : Cell) (sb ss : Spec.SInfo)
+    (addr : Bytes) (state : PCell)
+    (wfb : TreeWF H tb) (hsb : specInfo H tb = some sb) (hlb : sb.mask = 0) (hrb : PruneRel H 1 tb pb)
+    (h32b : (sb.hashAt 0).length = 32 ∧ Bytes.WF (sb.hashAt 0)) (hdb : sb.depthAt 0 ≤ 1022)
+    (wfs : TreeWF H ts) (hss : specInfo H ts = some ss) (hls : ss.mask = 0) (hrs : PruneRel H 1 ts ps)
+    (h32s : (ss.hashAt 0).length = 32 ∧ Bytes.WF (ss.hashAt 0)) (hds : ss.depthAt 0 ≤ 1022)
+    (hhdr : ∀ r0, PCell.ofCell H pb = some r0 → checkBlockHeaderProofState r0 (sb.hashAt 0) = some (ss.hashAt 0))
+    (hloc : ∀ st, PCell.ofCell H ps = some st → ∃ acc, locateAccount O st addr = some acc)
+    (hl : addr.length = 32) (hw : Bytes.WF addr)
+    (aT : Cell) (sa : Spec.SInfo) (hfull : lookupShardAccount cellView ts (bytesToBits addr) = some aT)
+    (hsa : specInfo H aT = some sa) (hstate : state.info.hash = sa.hashAt 0) :
+    ∃ c0 c1, PCell.ofCell H (merkleProofCell (sb.hashAt 0) (sb.depthAt 0) pb) = some c0 ∧
+      PCell.ofCell H (merkleProofCell (ss.hashAt 0) (ss.depthAt 0) ps) = some c1 ∧
+      checkAccountProof O [c0, c1] (sb.hashAt 0) addr state = true := by
+  obtain ⟨c0, r0, hc0, hr0, hp0, hk0, _⟩ := c11_complete H tb pb sb wfb hsb hlb hrb h32b hdb
+  obtain ⟨c1, r1, hc1, hr1, hp1, hk1, hh1⟩ := c11_complete H ts ps ss wfs hss hls hrs h32s hds
+  obtain ⟨acc, hacc⟩ := hloc r1 hp1
+  have wfp : TreeWF H ps :=
+    (TonVerif.Proofs.PruneWF.prune_treeWF H 1 ts ps ss (Nat.le_refl _) wfs hss (by rw [hls]; decide) hrs).1
+  have hlk := locateAccount_lookup O r1 addr acc hl hw hacc
+  have hhash := lookup_pruned H ts ps r1 acc _ aT sa hp1 wfp hrs hlk hfull hsa
+  refine ⟨c0, c1, hc0, hc1, ?_⟩
+  apply c11_account_complete O c0 c1 r0 r1 acc state (sb.hashAt 0) addr (ss.hashAt 0) hk0 (by rw [hr0]; rfl)
+    (hhdr r0 hp0) (by rw [hr1]; rfl) (by simpa [checkBlockHeaderProof] using hh1) hk1 hacc
+  rw [hhash, hstate]
+
+/-! Non-vacuity of the hypotheses of `c11_account_sound_state` about `T` (and `p`): a state-shaped tree (the tree of the
+one-account example above, all cells ordinary) has the `Shape` of a valid bag, spec values, no pruned branch below
+ordinary cells, the toy hash (32-byte output) is injective on its 6 representations, and its own dictionary holds the
+address: the lookup finds the `account_none` cell. -/
+def xAcc : Cell := .mk (-1) [false] []
+def xLeaf : Cell := .mk (-1) (exLabel ++ (exExtra ++ List.replicate 320 false)) [xAcc]
+def xAccs : Cell := .mk (-1) (true :: exExtra) [xLeaf]
+def xOmq : Cell := .mk (-1) [true] []
+def xGrp : Cell := .mk (-1) (List.replicate 140 false) []
+def xState : Cell := .mk (-1) (shardStateTag ++ List.replicate 330 false) [xOmq, xAccs, xGrp]
+
+example : (∀ x, (toyH x).length = 32) ∧ Shape xState ∧ (∃ s, specInfo toyH xState = some s) ∧ OrdUnpruned xState ∧
+    (reprs toyH xState).length = 6 ∧
+    (∀ x y, x ∈ reprs toyH xState → y ∈ reprs toyH xState → toyH x = toyH y → x = y) ∧
+    (lookupShardAccount cellView xState (bytesToBits exAddr)).map cellView.bits = some [false] := by
+  refine ⟨by intro x; simp [toyH], ?_, ?_, ?_, by decide +kernel, ?_, by decide +kernel⟩
+  · exact shape_ord _ _ (by decide) (shapes_cons _ _ (shape_ord _ _ (by decide) shapes_nil)
+      (shapes_cons _ _ (shape_ord _ _ (by decide) (shapes_cons _ _ (shape_ord _ _ (by decide)
+        (shapes_cons _ _ (shape_ord _ _ (by decide) shapes_nil) shapes_nil)) shapes_nil))
+      (shapes_cons _ _ (shape_ord _ _ (by decide) shapes_nil) shapes_nil)))
+  · exact specInfo_ord_some _ _ _ (specInfos_cons_some _ _ _ (specInfo_ord_some _ _ _ (specInfos_nil_some _))
+      (specInfos_cons_some _ _ _ (specInfo_ord_some _ _ _ (specInfos_cons_some _ _ _ (specInfo_ord_some _ _ _
+        (specInfos_cons_some _ _ _ (specInfo_ord_some _ _ _ (specInfos_nil_some _)) (specInfos_nil_some _))) (specInfos_nil_some _)))
+      (specInfos_cons_some _ _ _ (specInfo_ord_some _ _ _ (specInfos_nil_some _)) (specInfos_nil_some _))))
+  · exact ordUnpruned_ord _ _ (ordUnprunedL_cons _ _ (ordUnpruned_ord _ _ ordUnprunedL_nil)
+      (ordUnprunedL_cons _ _ (ordUnpruned_ord _ _ (ordUnprunedL_cons _ _ (ordUnpruned_ord _ _
+        (ordUnprunedL_cons _ _ (ordUnpruned_ord _ _ ordUnprunedL_nil) ordUnprunedL_nil)) ordUnprunedL_nil))
+      (ordUnprunedL_cons _ _ (ordUnpruned_ord _ _ ordUnprunedL_nil) ordUnprunedL_nil)))
+  · have key : ∀ x ∈ reprs toyH xState, ∀ y ∈ reprs toyH xState, toyH x = toyH y → x = y := by decide +kernel
+    exact fun x y hx hy => key x hx y hy
+
+/-! Non-vacuity of the hypotheses of `c11_account_complete_honest` that are new with respect to `c11_complete`: for the
+unpruned one-account state tree (`ps = ts = xState`), with the toy hash, the object can be built and passes the TL-B walk
+(`hloc`, for the `O` that accepts everything), the full state's dictionary holds the address (`hfull`), and the tree is a
+pruning of itself. -/
+example : (match PCell.ofCell toyH xState with
+      | some st => (locateAccount ⟨fun _ => true, fun _ => true⟩ st exAddr).isSome
+      | none => false) = true ∧
+    (lookupShardAccount cellView xState (bytesToBits exAddr)).isSome = true ∧ PruneRel toyH 1 xState xState := by
+  refine ⟨by decide +kernel, by decide +kernel, ?_⟩
+  exact pruneRel_ord_refl _ _ _ _ (pruneRels_cons _ _ _ _ (pruneRel_ord_refl _ _ _ _ (pruneRels_nil _ _))
+    (pruneRels_cons _ _ _ _ (pruneRel_ord_refl _ _ _ _ (pruneRels_cons _ _ _ _ (pruneRel_ord_refl _ _ _ _
+      (pruneRels_cons _ _ _ _ (pruneRel_ord_refl _ _ _ _ (pruneRels_nil _ _)) (pruneRels_nil _ _))) (pruneRels_nil _ _)))
+    (pruneRels_cons _ _ _ _ (pruneRel_ord_refl _ _ _ _ (pruneRels_nil _ _)) (pruneRels_nil _ _))))
+
+/-! Non-vacuity of the hypotheses of `c11_header_binds_state` about `TB`: a block-shaped tree — ordinary root whose third
+reference is a Merkle update over two pruned branches (as in every real block) — has the `Shape` of a valid bag, spec values,
+pruned branches only below its Merkle cell, and the toy hash is injective on its representations. -/
+def pbC : Cell := .mk 1 (bytesToBits ([1, 1] ++ List.replicate 32 9 ++ [0, 0])) []
+def updB : Cell := .mk 4 (bytesToBits ([4] ++ List.replicate 32 7 ++ List.replicate 32 9 ++ [0, 0, 0, 0])) [pbB, pbC]
+def blkB : Cell := .mk (-1) [true, true, false] [leafA, leafA, updB]
+
+/-- the data hypothesis of `c11_header_complete` on the same block-shaped tree: the Merkle update cell stores in bytes 33..64
+the level-0 hash of its second child (a pruned branch: its stored hash) -/
+example : ∃ sn, specInfo toyH pbC = some sn ∧
+    pySlice (dataBytes (bytesToBits ([4] ++ List.replicate 32 7 ++ List.replicate 32 9 ++ [0, 0, 0, 0]))) 33 65 = sn.hashAt 0 :=
+  ⟨Spec.node toyH .pruned (bytesToBits ([1, 1] ++ List.replicate 32 9 ++ [0, 0])) [],
+    by simp [pbC, specInfo, specInfos, kindOf], by decide +kernel⟩
+
+example : Shape blkB ∧ (∃ s, specInfo toyH blkB = some s) ∧ OrdUnpruned blkB ∧
+    (∃ suT, (cellView.refs blkB)[2]? = some suT ∧ cellView.kind suT = kMerkleUpdate) ∧
+    (∀ x y, x ∈ reprs toyH blkB → y ∈ reprs toyH blkB → toyH x = toyH y → x = y) := by
+  have hm7 : pmaskOf (bytesToBits ([1, 1] ++ List.replicate 32 7 ++ [0, 0])) = 1 := by decide +kernel
+  have hm9 : pmaskOf (bytesToBits ([1, 1] ++ List.replicate 32 9 ++ [0, 0])) = 1 := by decide +kernel
+  have hp : Spec.popcount 1 = 1 := by simp [Spec.popcount]
+  have hl7 : (bytesToBits ([1, 1] ++ List.replicate 32 7 ++ [0, 0])).length = 288 := by rw [length_bytesToBits]; simp
+  have hl9 : (bytesToBits ([1, 1] ++ List.replicate 32 9 ++ [0, 0])).length = 288 := by rw [length_bytesToBits]; simp
+  refine ⟨?_, by simp [blkB, updB, pbB, pbC, leafA, specInfo, specInfos, kindOf], ?_, ⟨updB, rfl, rfl⟩, ?_⟩
+  · simp only [blkB, updB, pbB, pbC, leafA, Shape, Shapes, hm7, hm9, hp, hl7, hl9]
+    simp
+  · simp only [blkB, updB, pbB, pbC, leafA, OrdUnpruned, OrdUnprunedL]
+    simp
+  · have key : ∀ x ∈ reprs toyH blkB, ∀ y ∈ reprs toyH blkB, toyH x = toyH y → x = y := by decide +kernel
+    exact fun x y hx hy => key x hx y hy
+
 /-! ## Source-regenerated decision lines (`Generated/ProofChecks.lean`: re-translated from proof/check_proof.py and the
 `CellTypes` constants of boc/exotic.py on every run)
 
@@ -586,9 +931,9 @@ theorem c11_src_account_tests (n : Nat) (wc : Int) (same : Bool) (h0 sh ah : Byt
 
 /-- `check_account_proof` of the hand model (what `c11_account_sound`, `c11_account_complete` … are proved about) decides
 with exactly the regenerated tests, in the order of the code. -/
-theorem c11_src_account (locate : PCell → Bytes → Option PCell) (roots : List PCell) (blkRootHash addr : Bytes)
+theorem c11_src_account (O : Opaque) (roots : List PCell) (blkRootHash addr : Bytes)
     (state : PCell) :
-    checkAccountProof locate roots blkRootHash addr state =
+    checkAccountProof O roots blkRootHash addr state =
       (if Generated.acctWrongRootCount roots.length then false else
        match roots with
        | [p0, p1] =>
@@ -607,7 +952,7 @@ theorem c11_src_account (locate : PCell → Bytes → Option PCell) (roots : Lis
          | some h0 =>
          if Generated.acctStateMismatch h0 stateHash then false else
          if !checkProof p1 stateHash then false else
-         match locate st addr with
+         match locateAccount O st addr with
          | none => false
          | some acc =>
            match acc.info.getHash 0 with
@@ -642,7 +987,7 @@ theorem c11_src_account (locate : PCell → Bytes → Option PCell) (roots : Lis
             · subst e
               cases hp1 : checkProof p1 h0
               · simp [hst, hr1, hh, hp1]
-              cases hl : locate st addr with
+              cases hl : locateAccount O st addr with
               | none => simp [hst, hr1, hh, hp1, hl]
               | some acc =>
                 cases hha : acc.info.getHash 0 with
